@@ -253,6 +253,30 @@ def mechanical(fn, how):
     return f
 
 
+def delegate_public(fn, names):
+    """every listed method of FileHashStore keeps its signature and delegates to a new private `_<name>_impl` that holds its body"""
+    def f(src):
+        out = dict(src)
+        tree = ast.parse(src[fn])
+        for c in tree.body:
+            if isinstance(c, ast.ClassDef) and c.name == "FileHashStore":
+                new = []
+                for m in c.body:
+                    if isinstance(m, ast.FunctionDef) and m.name in names and not m.decorator_list:
+                        impl = ast.FunctionDef(name=f"_{m.name}_impl", args=m.args, body=m.body, decorator_list=[], returns=m.returns, type_params=[])
+                        params = [a.arg for a in m.args.args[1:]]
+                        call = ast.Call(func=ast.Attribute(value=ast.Name(id="self", ctx=ast.Load()), attr=impl.name, ctx=ast.Load()),
+                                        args=[ast.Name(id=p_, ctx=ast.Load()) for p_ in params], keywords=[])
+                        new += [ast.FunctionDef(name=m.name, args=m.args, body=[ast.Return(value=call)], decorator_list=[], returns=m.returns, type_params=[]), impl]
+                    else:
+                        new.append(m)
+                c.body = new
+        ast.fix_missing_locations(tree)
+        out[fn] = ast.unparse(tree) + "\n"
+        return out
+    return f
+
+
 def chain(*fs):
     def f(src):
         for g in fs:
@@ -654,6 +678,8 @@ def sweep(prop, A, jobs=16):
     for how, what in (("swapeq", "operands of every == / != swapped"), ("keywords", "positional arguments of every self.method(...) call passed by keyword"),
                       ("retinline", "`x = e; return x` written as `return e`"), ("withmerge", "directly nested with-statements merged")):
         generic.append((prop, None, f"twin: {what}", chain(mechanical(FHS, how), mechanical(CLI, how))))
+    from .engine import PUBLIC_API
+    generic.append((prop, None, "twin: every public method delegates to a private _<name>_impl that holds its body", delegate_public(FHS, set(PUBLIC_API))))
     combo = []
     for fn_ in (FHS, CLI):
         combo += [rename_locals(fn_), restructure_ifs(fn_, "invert"), restructure_ifs(fn_, "guard"), mechanical(fn_, "swapeq"),
